@@ -94,7 +94,7 @@ impl Run {
             samples: Vec::new(),
             printed_violations: 0,
             sig_counts: BTreeMap::new(),
-            hash_cap: 400_000,
+            hash_cap: 50_000,
         }
     }
 
